@@ -522,10 +522,25 @@ def rule_narrowed_kind_compared(check, rule):
     check.analysed(fi)
     key = 'narrowed-kind-compared'
     tests = []
+    class _T(object):
+        pass
     for lp in ast.walk(fi.node):
         if isinstance(lp, ast.For) and 'keywords' in norm(lp.iter):
-            for x in ast.walk(lp):
-                if isinstance(x, ast.If) and any(isinstance(r, ast.Raise) for r in ast.walk(x)):
+            for r in ast.walk(lp):
+                if not isinstance(r, ast.Raise):
+                    continue
+                # every test on the way from the loop to the raise (an `and` may be written as nested ifs)
+                chain = []
+                t_ = r
+                while getattr(t_, '_parent', None) is not None and t_ is not lp:
+                    par_ = t_._parent
+                    if isinstance(par_, ast.If) and t_ in par_.body:
+                        chain.append(par_)
+                    t_ = par_
+                if chain:
+                    x = _T()
+                    x.test = ast.BoolOp(op=ast.And(), values=[c.test for c in chain]) if len(chain) > 1 else chain[0].test
+                    x.lineno = chain[-1].lineno
                     tests.append(x)
     if not tests:
         check.holds(rule, '%s %s' % (fi.loc(), fi.key), 'no per-keyword exit in autoforwards_partial', key=key, nontrivial=False)
@@ -534,7 +549,7 @@ def rule_narrowed_kind_compared(check, rule):
         kinds = [c for c in ast.walk(t.test) if isinstance(c, ast.Compare) and all(isinstance(o, ast.Attribute) and o.attr == 'kind'
                                                                                   for o in [c.left] + list(c.comparators))]
         two_sigs = [c for c in kinds if len(set(norm(o.value).split('.parameters')[0] for o in [c.left] + list(c.comparators))) >= 2]
-        st = '%s %s' % (fi.loc(t), fi.key)
+        st = '%s:%d %s' % (fi.module.relpath, t.lineno, fi.key)
         if two_sigs:
             check.holds(rule, st, 'the per-keyword exit compares the discovered kind with the kind in the function\'s own def', key=key)
         else:
